@@ -386,6 +386,9 @@ def cases(draw, avoid: frozenset = frozenset(), on_excluded=None, max_mods: int 
             wild_plain_only=True,
             strict_taint=True,
             self_names=True,
+            # a module may bind the name `annotations` by an ordinary import: that is not `from __future__ import
+            # annotations`, its string annotations are still parsed and resolved
+            extra_names=("annotations",),
             deco_defs=True,
         )
     )
